@@ -61,10 +61,16 @@ Defined.
 
 Definition fout_eqb (a b : fout) : bool := if fout_eq_dec a b then true else false.
 
+(* what C12 is about: the field's shape and its (buf.validate.field); the
+   j5.ext / j5.list annotations and the description are
+   C04's business *)
+Definition c12_proj (o : fout) : fout :=
+  FO (fo_json o) (fo_number o) (fo_kind o) (fo_rep o) (fo_opt o) (fo_pres o) (fo_val o) None None None [].
+
 (* compile outcome: only the kind of failure is compared *)
 Definition out_agree (m : outcome fout) (o : outcome fout) : bool :=
   match m, o with
-  | Ok a, Ok b => fout_eqb a b
+  | Ok a, Ok b => fout_eqb (c12_proj a) (c12_proj b)
   | Err _, Err _ => true
   | Panic _, Panic _ => true
   | _, _ => false
